@@ -189,8 +189,8 @@ theorem both_fireCleanup (sr : StepRel now tOK C R) (l : List Dt) (ha : AllC C l
       exact sr.disarm d (ha d hd) hr hc (by simpa using hexp)
   · simp only [hc]; exact sr.refl d
 
-theorem both_pump (sr : StepRel now tOK C R) (st : St) (ha : AllC C st.dts) :
-    Both R st.dts (pumpOp st now).dts := by
+theorem both_pump (sr : StepRel now tOK C R) (st : St) (f : Bool) (ha : AllC C st.dts) :
+    Both R st.dts (pumpOp st now f).dts := by
   unfold pumpOp
   simp only
   have h1 := both_fireCleanup sr st.dts ha
@@ -310,7 +310,7 @@ theorem step_succ (st : St) (op : Op) (sr : StepRel op.now tOK C R) (ha : AllC C
     · have h' : st.dts.any (fun d => d.id == p.id) = false := by simpa using h
       exact (both_add_tail sr.toAddRel st p h' ha hop).1 d (List.mem_append_left _ hd)
   | result s te now => exact (both_result sr.toAddRel.toTrigRel st s te hop ha).1
-  | pump now => exact (both_pump sr st ha).1
+  | pump now f => exact (both_pump sr st f ha).1
   | remove id u now => exact (both_remove sr st id u ha).1
   | setPaused b now => exact (both_setq st b (hq b now rfl) ha).1
 
@@ -336,7 +336,7 @@ theorem step_pred (st : St) (op : Op) (sr : StepRel op.now tOK C R) (ha : AllC C
         refine ⟨p, rfl, ?_⟩
         simp at hm; subst hm; exact r
   | result s te now => intro d' hd'; exact Or.inl ((both_result sr.toAddRel.toTrigRel st s te hop ha).2 d' hd')
-  | pump now => intro d' hd'; exact Or.inl ((both_pump sr st ha).2 d' hd')
+  | pump now f => intro d' hd'; exact Or.inl ((both_pump sr st f ha).2 d' hd')
   | remove id u now => intro d' hd'; exact Or.inl ((both_remove sr st id u ha).2 d' hd')
   | setPaused b now => intro d' hd'; exact Or.inl ((both_setq st b (hq b now rfl) ha).2 d' hd')
 
